@@ -15,6 +15,7 @@
 #include <time.h>
 #include <signal.h>
 #include "vtrace.h"
+#include "galloc.h"
 
 #define MAXS 12
 static PSocket *sk[MAXS]; static int sport[MAXS], sfam[MAXS]; static long tx_off[MAXS], rx_off[MAXS];
@@ -215,6 +216,7 @@ int main (int argc, char **argv) {
 	in = fopen (argv[1], "r"); if (!in) return 2;
 	vt_open (argv[2]);
 	p_libsys_init (); p_libsys_shutdown (); p_libsys_init ();      /* the library is used after a shutdown / re-initialisation cycle */
+	if (!ga_install ()) return 2;      /* fresh memory is garbage, released memory is overwritten (galloc.h) */
 	while (fgets (line, sizeof line, in)) {
 		Cmd cm; char *p = line; char w1[24] = "", w2[24] = "", w3[24] = "", w4[24] = "", w5[24] = ""; int isbg = 0;
 		memset (&cm, 0, sizeof cm);
@@ -249,6 +251,7 @@ int main (int argc, char **argv) {
 	}
 	if (have_bg) pthread_join (bg, NULL);
 	{ int i; for (i = 1; i < MAXS; i++) if (sk[i]) p_socket_free (sk[i]); }
+	p_mem_restore_vtable ();
 	p_libsys_shutdown ();
 	vt_close ();
 	return 0;
